@@ -519,6 +519,7 @@ void f_sscanf () {
    * already on the stack by this time
    */
   ret = sp;
+  STACK_CHECK (num_arg + 1);
   sp += num_arg + 1;
   *sp = *(ret--);        /* move format description to top of stack */
   *(sp - 1) = *(ret);    /* move source string just below the format desc. */
